@@ -655,6 +655,49 @@ fn apply_guard(b: &mut Block, pat: &[PTok], reset: &[Stmt], acquire: &[Stmt], is
 // loop numbering -------------------------------------------------------------------------------
 struct LoopMarker {
     n: usize,
+    kinds: Vec<&'static str>,
+}
+// R16: `loop { if C { break; } REST }` (no other `break` of this loop in REST) is the `while !(C) { REST }` it
+// spells out; normalised so that loop clauses written for the `while` form keep their meaning
+struct LoopNorm { hits: usize }
+struct BreakFinder { found: bool }
+impl<'ast> syn::visit::Visit<'ast> for BreakFinder {
+    fn visit_expr(&mut self, e: &'ast Expr) {
+        match e {
+            Expr::Break(_) => { self.found = true; }
+            // a nested loop owns its breaks; a closure / async block cannot break out
+            Expr::While(_) | Expr::Loop(_) | Expr::ForLoop(_) | Expr::Closure(_) | Expr::Async(_) => {}
+            _ => syn::visit::visit_expr(self, e),
+        }
+    }
+}
+impl VisitMut for LoopNorm {
+    fn visit_expr_mut(&mut self, e: &mut Expr) {
+        visit_mut::visit_expr_mut(self, e);
+        let mut repl: Option<Expr> = None;
+        if let Expr::Loop(l) = e {
+            if l.label.is_none() && !l.body.stmts.is_empty() {
+                let first_is_guard = match &l.body.stmts[0] {
+                    Stmt::Expr(Expr::If(i), _) => i.else_branch.is_none() && i.then_branch.stmts.len() == 1
+                        && matches!(&i.then_branch.stmts[0], Stmt::Expr(Expr::Break(b), _) if b.label.is_none() && b.expr.is_none())
+                        && !matches!(&*i.cond, Expr::Let(_)),
+                    _ => false,
+                };
+                if first_is_guard {
+                    let mut bf = BreakFinder { found: false };
+                    for st in l.body.stmts.iter().skip(1) { syn::visit::Visit::visit_stmt(&mut bf, st); }
+                    if !bf.found {
+                        if let Stmt::Expr(Expr::If(i), _) = &l.body.stmts[0] {
+                            let c = (*i.cond).clone();
+                            let rest: Vec<Stmt> = l.body.stmts.iter().skip(1).cloned().collect();
+                            repl = Some(syn::parse_quote!(while !(#c) { #(#rest)* }));
+                        }
+                    }
+                }
+            }
+        }
+        if let Some(r) = repl { *e = r; self.hits += 1; }
+    }
 }
 impl VisitMut for LoopMarker {
     fn visit_expr_mut(&mut self, e: &mut Expr) {
@@ -662,6 +705,7 @@ impl VisitMut for LoopMarker {
             Expr::While(w) => {
                 let id = syn::Ident::new(&format!("__vloop_{}", self.n), Span::call_site());
                 self.n += 1;
+                self.kinds.push("while");
                 let c = (*w.cond).clone();
                 w.cond = Box::new(syn::parse_quote!(#id(#c)));
                 // visit body only (cond was wrapped)
@@ -671,6 +715,7 @@ impl VisitMut for LoopMarker {
             Expr::ForLoop(f) => {
                 let id = syn::Ident::new(&format!("__vloop_{}", self.n), Span::call_site());
                 self.n += 1;
+                self.kinds.push("for");
                 let c = (*f.expr).clone();
                 f.expr = Box::new(syn::parse_quote!(#id(#c)));
                 visit_mut::visit_block_mut(self, &mut f.body);
@@ -679,6 +724,7 @@ impl VisitMut for LoopMarker {
             Expr::Loop(l) => {
                 let lt = syn::Lifetime::new(&format!("'__vloop_{}", self.n), Span::call_site());
                 self.n += 1;
+                self.kinds.push("loop");
                 if l.label.is_some() {
                     die("unsupported construct: labelled loop in target");
                 }
@@ -995,13 +1041,14 @@ fn strip_vis_and_attrs_sig(sig: &mut syn::Signature, drop_generics: &[String], k
 // extract-method refactoring) is INLINED at its call sites when that is semantics-preserving by
 // construction: no `return`, no `?`, no loop in its body, not recursive, receiver (if any) is the
 // caller's own `self`. The caller is then verified against the helper's real code.
-struct HelperBody { params: Vec<(syn::Pat, syn::Type)>, block: syn::Block, has_self: bool, early_exit: bool }
-struct InlineScan { bad: bool, early_exit: bool, own: String }
+struct HelperBody { params: Vec<(syn::Pat, syn::Type)>, block: syn::Block, has_self: bool, early_exit: bool, has_return: bool }
+struct InlineScan { bad: bool, early_exit: bool, has_return: bool, own: String }
 impl<'ast> syn::visit::Visit<'ast> for InlineScan {
     fn visit_expr(&mut self, e: &'ast Expr) {
         match e {
             // `return` / `?` leave the HELPER: equivalent after inlining only where the call is the caller's own result (tail position)
-            Expr::Return(_) | Expr::Try(_) => self.early_exit = true,
+            Expr::Return(_) => { self.early_exit = true; self.has_return = true; }
+            Expr::Try(_) => self.early_exit = true,
             Expr::While(_) | Expr::Loop(_) | Expr::ForLoop(_) | Expr::Break(_) | Expr::Continue(_) | Expr::Closure(_) => self.bad = true,
             Expr::Call(c) => { if let Expr::Path(p) = &*c.func { if p.path.segments.last().map(|x| x.ident == self.own).unwrap_or(false) { self.bad = true; } } }
             Expr::MethodCall(m) => { if m.method == self.own { self.bad = true; } }
@@ -1040,7 +1087,7 @@ fn collect_inlinable(items: &[syn::Item], impl_of: Option<&String>, skip: &std::
             }
         }
         if out.contains_key(&name) { dup.insert(name.clone()); }
-        out.insert(name, HelperBody { params, block: block.clone(), has_self, early_exit: false });
+        out.insert(name, HelperBody { params, block: block.clone(), has_self, early_exit: false, has_return: false });
     };
     for it in items {
         match it {
@@ -1134,6 +1181,21 @@ impl<'a> VisitMut for Inliner<'a> {
     fn visit_expr_mut(&mut self, e: &mut Expr) {
         visit_mut::visit_expr_mut(self, e);
         self.try_inline(e);
+        // `helper(..)?` where the helper's only early exits are `?`: an error leaves the helper and is
+        // then propagated by the caller's `?` - after inlining it leaves the caller directly, with the
+        // same value (one error type after lowering)
+        if let Expr::Try(t) = e {
+            let name = match &*t.expr {
+                Expr::Call(c) => match &*c.func { Expr::Path(p) => p.path.segments.last().map(|x| x.ident.to_string()), _ => None },
+                Expr::MethodCall(m) => Some(m.method.to_string()),
+                _ => None,
+            };
+            if let Some(n) = name {
+                if self.helpers.get(&n).map(|h| h.early_exit && !h.has_return).unwrap_or(false) {
+                    let was = self.tail; self.tail = true; self.try_inline(&mut t.expr); self.tail = was;
+                }
+            }
+        }
     }
 }
 
@@ -1332,9 +1394,10 @@ fn emit_target(ctx: &mut Ctx, unit: &Unit, t: &Target) -> Emitted {
                 lw2.visit_block_mut(&mut h.block);
                 for (_, ty) in h.params.iter_mut() { lw2.visit_type_mut(ty); }
                 // eligibility, on the lowered body (closures that the rules turned into matches are gone)
-                let mut sc = InlineScan { bad: false, early_exit: false, own: name.clone() };
+                let mut sc = InlineScan { bad: false, early_exit: false, has_return: false, own: name.clone() };
                 syn::visit::Visit::visit_block(&mut sc, &h.block);
                 h.early_exit = sc.early_exit;
+                h.has_return = sc.has_return;
                 if sc.bad { bad.push(name.clone()); }
             }
             for b in bad { helpers.remove(&b); }
@@ -1392,7 +1455,10 @@ fn emit_target(ctx: &mut Ctx, unit: &Unit, t: &Target) -> Emitted {
     }
 
     // loops
-    let mut lm = LoopMarker { n: 0 };
+    let mut ln = LoopNorm { hits: 0 };
+    ln.visit_block_mut(&mut block);
+    if ln.hits > 0 { lw.note("R16 loop { if C { break; } .. } -> while !(C) { .. }"); }
+    let mut lm = LoopMarker { n: 0, kinds: Vec::new() };
     lm.visit_block_mut(&mut block);
     let n_loops = lm.n;
     let mut loop_text: BTreeMap<usize, String> = BTreeMap::new();
@@ -1402,6 +1468,14 @@ fn emit_target(ctx: &mut Ctx, unit: &Unit, t: &Target) -> Emitted {
             die(&format!(
                 "lost anchor: target {} — loop {} does not exist (function has {} loops)",
                 t.name, n, n_loops
+            ));
+        }
+        // clauses with plain `invariant`s only are written for a loop whose exits are its CONDITION: on a
+        // `loop { .. break .. }` they would lose the exit condition and fail for no semantic reason
+        if lm.kinds[*n] == "loop" && !txt.contains("invariant_except_break") && !txt.contains("ensures") {
+            die(&format!(
+                "lost anchor: target {} — loop {} is now a `loop {{ .. break .. }}`; its clauses were written for a loop that ends by its condition",
+                t.name, n
             ));
         }
         let (lt, idx) = loop_block(txt);
